@@ -3,7 +3,7 @@
 From Coq Require Import String ZArith NArith List Bool Arith.
 From Coq Require Import Floats.SpecFloat.
 From Cfi Require Import Glue.Sx Py.PyStr Py.PyNum Py.PyBits Py.PyDate Model.Field Model.Line.
-From Cfi Require Import Proofs.FieldProofs Proofs.NumText Proofs.LineProofs.
+From Cfi Require Import Proofs.FieldProofs Proofs.NumText Proofs.DateProofs Proofs.LineProofs Proofs.DelimProofs.
 Import ListNotations.
 
 (* the written line is the blank-trimmed renderings (each field written alone at column 0) joined by the
@@ -36,6 +36,54 @@ Theorem C11_split_join : forall c toks, toks <> [] -> Forall (fun t => ~ In c t)
   split [c] (join [c] toks) = toks.
 Proof. exact split_join_char. Qed.
 Print Assumptions C11_split_join.
+
+(* [token_of f v] = the blank-trimmed rendering of v written alone at column 0; [read_token f t] = reading t with f
+   re-based at column 0 (Proofs/DelimProofs.v).
+   The composed round trip, for a one-character non-blank delimiter that occurs in no token: reading the written line
+   returns, field by field, the reading of its own token -- whatever the reading line's slots held *)
+Theorem C11_roundtrip : forall st c vs st' text st2,
+  write_delim st [c] vs = (st', Some text) -> length vs = length st ->
+  is_space c = false ->
+  Forall (fun fv => exists t, token_of (fst fv) (snd fv) = Some t /\ ~ In c t) st' ->
+  fields_of st2 = fields_of st ->
+  values_of (read_delim st2 [c] text) =
+    map (fun fv => match token_of (fst fv) (snd fv) with Some t => read_token (fst fv) t | None => VNone end) st'.
+Proof. exact delim_roundtrip. Qed.
+Print Assumptions C11_roundtrip.
+
+(* and the reading of a token is the canonical value: integers unchanged, literals trimmed, missing -> None / "",
+   dates at the format's resolution, F-notation floats = the reading of the padded rendering (C01_float_decimal) *)
+Theorem C11_token_values :
+  (forall f z, kind f = KInt -> fits (rebase f) (VInt z) = true ->
+     forall t, token_of f (VInt z) = Some t -> read_token f t = VInt z) /\
+  (forall f s, kind f = KLit -> fits (rebase f) (VStr s) = true ->
+     forall t, token_of f (VStr s) = Some t -> read_token f t = VStr (strip is_space s)) /\
+  (forall f v, missing v = true ->
+     match kind f with KFloat _ _ _ sep => sep = [DOT] \/ sep = [44%N] | KDate fmts => Forall (fun fm => fm <> []) fmts | _ => True end ->
+     forall t, token_of f v = Some t -> read_token f t = match kind f with KLit => VStr [] | _ => VNone end) /\
+  (forall f dd up sep s m e, kind f = KFloat dd false up sep -> (sep = [DOT] \/ sep = [44%N]) ->
+     fits (rebase f) (VFloat (S754_finite s m e)) = true ->
+     forall t, token_of f (VFloat (S754_finite s m e)) = Some t ->
+     read_token f t = reread (rebase f) (VFloat (S754_finite s m e))) /\
+  (forall f fmt r d, kind f = KDate (fmt :: r) ->
+     wf_fmt fmt -> dom_dt d -> valid_dt (trunc fmt d) = true -> strip is_space (strftime fmt d) = strftime fmt d ->
+     fits (rebase f) (VDate d) = true ->
+     forall t, token_of f (VDate d) = Some t -> read_token f t = VDate (trunc fmt d)).
+Proof.
+  split; [exact read_token_int|split; [exact read_token_lit|split; [exact read_token_missing|split;
+    [exact read_token_float_fixed|exact read_token_date]]]].
+Qed.
+Print Assumptions C11_token_values.
+
+(* a line with fewer tokens yields the readings of those tokens and missing values for the absent fields *)
+Theorem C11_short_line : forall st c toks,
+  is_space c = false -> toks <> [] -> Forall (fun t => ~ In c t /\ strip is_space t = t) toks ->
+  values_of (read_delim st [c] (join [c] toks ++ [NL])) =
+    map (fun i => match nth_error toks i with
+                  | Some t => read_token (nth i (fields_of st) {| kind := KLit; size := 0; start := 0 |}) t
+                  | None => VNone end) (seq 0 (length st)).
+Proof. exact delim_short_line. Qed.
+Print Assumptions C11_short_line.
 
 (* the code as found did carry values over: reading "X" after a two-field line kept the second value *)
 Theorem C11_refuted_carry_over :
